@@ -110,652 +110,6 @@ module Little =
   | D9 d0 -> D9 (succ_double d0)
  end
 
-type byte =
-| X00
-| X01
-| X02
-| X03
-| X04
-| X05
-| X06
-| X07
-| X08
-| X09
-| X0a
-| X0b
-| X0c
-| X0d
-| X0e
-| X0f
-| X10
-| X11
-| X12
-| X13
-| X14
-| X15
-| X16
-| X17
-| X18
-| X19
-| X1a
-| X1b
-| X1c
-| X1d
-| X1e
-| X1f
-| X20
-| X21
-| X22
-| X23
-| X24
-| X25
-| X26
-| X27
-| X28
-| X29
-| X2a
-| X2b
-| X2c
-| X2d
-| X2e
-| X2f
-| X30
-| X31
-| X32
-| X33
-| X34
-| X35
-| X36
-| X37
-| X38
-| X39
-| X3a
-| X3b
-| X3c
-| X3d
-| X3e
-| X3f
-| X40
-| X41
-| X42
-| X43
-| X44
-| X45
-| X46
-| X47
-| X48
-| X49
-| X4a
-| X4b
-| X4c
-| X4d
-| X4e
-| X4f
-| X50
-| X51
-| X52
-| X53
-| X54
-| X55
-| X56
-| X57
-| X58
-| X59
-| X5a
-| X5b
-| X5c
-| X5d
-| X5e
-| X5f
-| X60
-| X61
-| X62
-| X63
-| X64
-| X65
-| X66
-| X67
-| X68
-| X69
-| X6a
-| X6b
-| X6c
-| X6d
-| X6e
-| X6f
-| X70
-| X71
-| X72
-| X73
-| X74
-| X75
-| X76
-| X77
-| X78
-| X79
-| X7a
-| X7b
-| X7c
-| X7d
-| X7e
-| X7f
-| X80
-| X81
-| X82
-| X83
-| X84
-| X85
-| X86
-| X87
-| X88
-| X89
-| X8a
-| X8b
-| X8c
-| X8d
-| X8e
-| X8f
-| X90
-| X91
-| X92
-| X93
-| X94
-| X95
-| X96
-| X97
-| X98
-| X99
-| X9a
-| X9b
-| X9c
-| X9d
-| X9e
-| X9f
-| Xa0
-| Xa1
-| Xa2
-| Xa3
-| Xa4
-| Xa5
-| Xa6
-| Xa7
-| Xa8
-| Xa9
-| Xaa
-| Xab
-| Xac
-| Xad
-| Xae
-| Xaf
-| Xb0
-| Xb1
-| Xb2
-| Xb3
-| Xb4
-| Xb5
-| Xb6
-| Xb7
-| Xb8
-| Xb9
-| Xba
-| Xbb
-| Xbc
-| Xbd
-| Xbe
-| Xbf
-| Xc0
-| Xc1
-| Xc2
-| Xc3
-| Xc4
-| Xc5
-| Xc6
-| Xc7
-| Xc8
-| Xc9
-| Xca
-| Xcb
-| Xcc
-| Xcd
-| Xce
-| Xcf
-| Xd0
-| Xd1
-| Xd2
-| Xd3
-| Xd4
-| Xd5
-| Xd6
-| Xd7
-| Xd8
-| Xd9
-| Xda
-| Xdb
-| Xdc
-| Xdd
-| Xde
-| Xdf
-| Xe0
-| Xe1
-| Xe2
-| Xe3
-| Xe4
-| Xe5
-| Xe6
-| Xe7
-| Xe8
-| Xe9
-| Xea
-| Xeb
-| Xec
-| Xed
-| Xee
-| Xef
-| Xf0
-| Xf1
-| Xf2
-| Xf3
-| Xf4
-| Xf5
-| Xf6
-| Xf7
-| Xf8
-| Xf9
-| Xfa
-| Xfb
-| Xfc
-| Xfd
-| Xfe
-| Xff
-
-(** val of_bits :
-    (bool * (bool * (bool * (bool * (bool * (bool * (bool * bool))))))) ->
-    byte **)
-
-let of_bits = function
-| (b0, p) ->
-  if b0
-  then let (b1, p0) = p in
-       if b1
-       then let (b2, p1) = p0 in
-            if b2
-            then let (b3, p2) = p1 in
-                 if b3
-                 then let (b4, p3) = p2 in
-                      if b4
-                      then let (b5, p4) = p3 in
-                           if b5
-                           then let (b6, b7) = p4 in
-                                if b6
-                                then if b7 then Xff else X7f
-                                else if b7 then Xbf else X3f
-                           else let (b6, b7) = p4 in
-                                if b6
-                                then if b7 then Xdf else X5f
-                                else if b7 then X9f else X1f
-                      else let (b5, p4) = p3 in
-                           if b5
-                           then let (b6, b7) = p4 in
-                                if b6
-                                then if b7 then Xef else X6f
-                                else if b7 then Xaf else X2f
-                           else let (b6, b7) = p4 in
-                                if b6
-                                then if b7 then Xcf else X4f
-                                else if b7 then X8f else X0f
-                 else let (b4, p3) = p2 in
-                      if b4
-                      then let (b5, p4) = p3 in
-                           if b5
-                           then let (b6, b7) = p4 in
-                                if b6
-                                then if b7 then Xf7 else X77
-                                else if b7 then Xb7 else X37
-                           else let (b6, b7) = p4 in
-                                if b6
-                                then if b7 then Xd7 else X57
-                                else if b7 then X97 else X17
-                      else let (b5, p4) = p3 in
-                           if b5
-                           then let (b6, b7) = p4 in
-                                if b6
-                                then if b7 then Xe7 else X67
-                                else if b7 then Xa7 else X27
-                           else let (b6, b7) = p4 in
-                                if b6
-                                then if b7 then Xc7 else X47
-                                else if b7 then X87 else X07
-            else let (b3, p2) = p1 in
-                 if b3
-                 then let (b4, p3) = p2 in
-                      if b4
-                      then let (b5, p4) = p3 in
-                           if b5
-                           then let (b6, b7) = p4 in
-                                if b6
-                                then if b7 then Xfb else X7b
-                                else if b7 then Xbb else X3b
-                           else let (b6, b7) = p4 in
-                                if b6
-                                then if b7 then Xdb else X5b
-                                else if b7 then X9b else X1b
-                      else let (b5, p4) = p3 in
-                           if b5
-                           then let (b6, b7) = p4 in
-                                if b6
-                                then if b7 then Xeb else X6b
-                                else if b7 then Xab else X2b
-                           else let (b6, b7) = p4 in
-                                if b6
-                                then if b7 then Xcb else X4b
-                                else if b7 then X8b else X0b
-                 else let (b4, p3) = p2 in
-                      if b4
-                      then let (b5, p4) = p3 in
-                           if b5
-                           then let (b6, b7) = p4 in
-                                if b6
-                                then if b7 then Xf3 else X73
-                                else if b7 then Xb3 else X33
-                           else let (b6, b7) = p4 in
-                                if b6
-                                then if b7 then Xd3 else X53
-                                else if b7 then X93 else X13
-                      else let (b5, p4) = p3 in
-                           if b5
-                           then let (b6, b7) = p4 in
-                                if b6
-                                then if b7 then Xe3 else X63
-                                else if b7 then Xa3 else X23
-                           else let (b6, b7) = p4 in
-                                if b6
-                                then if b7 then Xc3 else X43
-                                else if b7 then X83 else X03
-       else let (b2, p1) = p0 in
-            if b2
-            then let (b3, p2) = p1 in
-                 if b3
-                 then let (b4, p3) = p2 in
-                      if b4
-                      then let (b5, p4) = p3 in
-                           if b5
-                           then let (b6, b7) = p4 in
-                                if b6
-                                then if b7 then Xfd else X7d
-                                else if b7 then Xbd else X3d
-                           else let (b6, b7) = p4 in
-                                if b6
-                                then if b7 then Xdd else X5d
-                                else if b7 then X9d else X1d
-                      else let (b5, p4) = p3 in
-                           if b5
-                           then let (b6, b7) = p4 in
-                                if b6
-                                then if b7 then Xed else X6d
-                                else if b7 then Xad else X2d
-                           else let (b6, b7) = p4 in
-                                if b6
-                                then if b7 then Xcd else X4d
-                                else if b7 then X8d else X0d
-                 else let (b4, p3) = p2 in
-                      if b4
-                      then let (b5, p4) = p3 in
-                           if b5
-                           then let (b6, b7) = p4 in
-                                if b6
-                                then if b7 then Xf5 else X75
-                                else if b7 then Xb5 else X35
-                           else let (b6, b7) = p4 in
-                                if b6
-                                then if b7 then Xd5 else X55
-                                else if b7 then X95 else X15
-                      else let (b5, p4) = p3 in
-                           if b5
-                           then let (b6, b7) = p4 in
-                                if b6
-                                then if b7 then Xe5 else X65
-                                else if b7 then Xa5 else X25
-                           else let (b6, b7) = p4 in
-                                if b6
-                                then if b7 then Xc5 else X45
-                                else if b7 then X85 else X05
-            else let (b3, p2) = p1 in
-                 if b3
-                 then let (b4, p3) = p2 in
-                      if b4
-                      then let (b5, p4) = p3 in
-                           if b5
-                           then let (b6, b7) = p4 in
-                                if b6
-                                then if b7 then Xf9 else X79
-                                else if b7 then Xb9 else X39
-                           else let (b6, b7) = p4 in
-                                if b6
-                                then if b7 then Xd9 else X59
-                                else if b7 then X99 else X19
-                      else let (b5, p4) = p3 in
-                           if b5
-                           then let (b6, b7) = p4 in
-                                if b6
-                                then if b7 then Xe9 else X69
-                                else if b7 then Xa9 else X29
-                           else let (b6, b7) = p4 in
-                                if b6
-                                then if b7 then Xc9 else X49
-                                else if b7 then X89 else X09
-                 else let (b4, p3) = p2 in
-                      if b4
-                      then let (b5, p4) = p3 in
-                           if b5
-                           then let (b6, b7) = p4 in
-                                if b6
-                                then if b7 then Xf1 else X71
-                                else if b7 then Xb1 else X31
-                           else let (b6, b7) = p4 in
-                                if b6
-                                then if b7 then Xd1 else X51
-                                else if b7 then X91 else X11
-                      else let (b5, p4) = p3 in
-                           if b5
-                           then let (b6, b7) = p4 in
-                                if b6
-                                then if b7 then Xe1 else X61
-                                else if b7 then Xa1 else X21
-                           else let (b6, b7) = p4 in
-                                if b6
-                                then if b7 then Xc1 else X41
-                                else if b7 then X81 else X01
-  else let (b1, p0) = p in
-       if b1
-       then let (b2, p1) = p0 in
-            if b2
-            then let (b3, p2) = p1 in
-                 if b3
-                 then let (b4, p3) = p2 in
-                      if b4
-                      then let (b5, p4) = p3 in
-                           if b5
-                           then let (b6, b7) = p4 in
-                                if b6
-                                then if b7 then Xfe else X7e
-                                else if b7 then Xbe else X3e
-                           else let (b6, b7) = p4 in
-                                if b6
-                                then if b7 then Xde else X5e
-                                else if b7 then X9e else X1e
-                      else let (b5, p4) = p3 in
-                           if b5
-                           then let (b6, b7) = p4 in
-                                if b6
-                                then if b7 then Xee else X6e
-                                else if b7 then Xae else X2e
-                           else let (b6, b7) = p4 in
-                                if b6
-                                then if b7 then Xce else X4e
-                                else if b7 then X8e else X0e
-                 else let (b4, p3) = p2 in
-                      if b4
-                      then let (b5, p4) = p3 in
-                           if b5
-                           then let (b6, b7) = p4 in
-                                if b6
-                                then if b7 then Xf6 else X76
-                                else if b7 then Xb6 else X36
-                           else let (b6, b7) = p4 in
-                                if b6
-                                then if b7 then Xd6 else X56
-                                else if b7 then X96 else X16
-                      else let (b5, p4) = p3 in
-                           if b5
-                           then let (b6, b7) = p4 in
-                                if b6
-                                then if b7 then Xe6 else X66
-                                else if b7 then Xa6 else X26
-                           else let (b6, b7) = p4 in
-                                if b6
-                                then if b7 then Xc6 else X46
-                                else if b7 then X86 else X06
-            else let (b3, p2) = p1 in
-                 if b3
-                 then let (b4, p3) = p2 in
-                      if b4
-                      then let (b5, p4) = p3 in
-                           if b5
-                           then let (b6, b7) = p4 in
-                                if b6
-                                then if b7 then Xfa else X7a
-                                else if b7 then Xba else X3a
-                           else let (b6, b7) = p4 in
-                                if b6
-                                then if b7 then Xda else X5a
-                                else if b7 then X9a else X1a
-                      else let (b5, p4) = p3 in
-                           if b5
-                           then let (b6, b7) = p4 in
-                                if b6
-                                then if b7 then Xea else X6a
-                                else if b7 then Xaa else X2a
-                           else let (b6, b7) = p4 in
-                                if b6
-                                then if b7 then Xca else X4a
-                                else if b7 then X8a else X0a
-                 else let (b4, p3) = p2 in
-                      if b4
-                      then let (b5, p4) = p3 in
-                           if b5
-                           then let (b6, b7) = p4 in
-                                if b6
-                                then if b7 then Xf2 else X72
-                                else if b7 then Xb2 else X32
-                           else let (b6, b7) = p4 in
-                                if b6
-                                then if b7 then Xd2 else X52
-                                else if b7 then X92 else X12
-                      else let (b5, p4) = p3 in
-                           if b5
-                           then let (b6, b7) = p4 in
-                                if b6
-                                then if b7 then Xe2 else X62
-                                else if b7 then Xa2 else X22
-                           else let (b6, b7) = p4 in
-                                if b6
-                                then if b7 then Xc2 else X42
-                                else if b7 then X82 else X02
-       else let (b2, p1) = p0 in
-            if b2
-            then let (b3, p2) = p1 in
-                 if b3
-                 then let (b4, p3) = p2 in
-                      if b4
-                      then let (b5, p4) = p3 in
-                           if b5
-                           then let (b6, b7) = p4 in
-                                if b6
-                                then if b7 then Xfc else X7c
-                                else if b7 then Xbc else X3c
-                           else let (b6, b7) = p4 in
-                                if b6
-                                then if b7 then Xdc else X5c
-                                else if b7 then X9c else X1c
-                      else let (b5, p4) = p3 in
-                           if b5
-                           then let (b6, b7) = p4 in
-                                if b6
-                                then if b7 then Xec else X6c
-                                else if b7 then Xac else X2c
-                           else let (b6, b7) = p4 in
-                                if b6
-                                then if b7 then Xcc else X4c
-                                else if b7 then X8c else X0c
-                 else let (b4, p3) = p2 in
-                      if b4
-                      then let (b5, p4) = p3 in
-                           if b5
-                           then let (b6, b7) = p4 in
-                                if b6
-                                then if b7 then Xf4 else X74
-                                else if b7 then Xb4 else X34
-                           else let (b6, b7) = p4 in
-                                if b6
-                                then if b7 then Xd4 else X54
-                                else if b7 then X94 else X14
-                      else let (b5, p4) = p3 in
-                           if b5
-                           then let (b6, b7) = p4 in
-                                if b6
-                                then if b7 then Xe4 else X64
-                                else if b7 then Xa4 else X24
-                           else let (b6, b7) = p4 in
-                                if b6
-                                then if b7 then Xc4 else X44
-                                else if b7 then X84 else X04
-            else let (b3, p2) = p1 in
-                 if b3
-                 then let (b4, p3) = p2 in
-                      if b4
-                      then let (b5, p4) = p3 in
-                           if b5
-                           then let (b6, b7) = p4 in
-                                if b6
-                                then if b7 then Xf8 else X78
-                                else if b7 then Xb8 else X38
-                           else let (b6, b7) = p4 in
-                                if b6
-                                then if b7 then Xd8 else X58
-                                else if b7 then X98 else X18
-                      else let (b5, p4) = p3 in
-                           if b5
-                           then let (b6, b7) = p4 in
-                                if b6
-                                then if b7 then Xe8 else X68
-                                else if b7 then Xa8 else X28
-                           else let (b6, b7) = p4 in
-                                if b6
-                                then if b7 then Xc8 else X48
-                                else if b7 then X88 else X08
-                 else let (b4, p3) = p2 in
-                      if b4
-                      then let (b5, p4) = p3 in
-                           if b5
-                           then let (b6, b7) = p4 in
-                                if b6
-                                then if b7 then Xf0 else X70
-                                else if b7 then Xb0 else X30
-                           else let (b6, b7) = p4 in
-                                if b6
-                                then if b7 then Xd0 else X50
-                                else if b7 then X90 else X10
-                      else let (b5, p4) = p3 in
-                           if b5
-                           then let (b6, b7) = p4 in
-                                if b6
-                                then if b7 then Xe0 else X60
-                                else if b7 then Xa0 else X20
-                           else let (b6, b7) = p4 in
-                                if b6
-                                then if b7 then Xc0 else X40
-                                else if b7 then X80 else X00
-
 module Nat =
  struct
   (** val eqb : nat -> nat -> bool **)
@@ -1225,275 +579,6 @@ module N =
   | Npos p -> Coq_Pos.to_uint p
  end
 
-(** val to_N : byte -> n **)
-
-let to_N = function
-| X00 -> N0
-| X01 -> Npos XH
-| X02 -> Npos (XO XH)
-| X03 -> Npos (XI XH)
-| X04 -> Npos (XO (XO XH))
-| X05 -> Npos (XI (XO XH))
-| X06 -> Npos (XO (XI XH))
-| X07 -> Npos (XI (XI XH))
-| X08 -> Npos (XO (XO (XO XH)))
-| X09 -> Npos (XI (XO (XO XH)))
-| X0a -> Npos (XO (XI (XO XH)))
-| X0b -> Npos (XI (XI (XO XH)))
-| X0c -> Npos (XO (XO (XI XH)))
-| X0d -> Npos (XI (XO (XI XH)))
-| X0e -> Npos (XO (XI (XI XH)))
-| X0f -> Npos (XI (XI (XI XH)))
-| X10 -> Npos (XO (XO (XO (XO XH))))
-| X11 -> Npos (XI (XO (XO (XO XH))))
-| X12 -> Npos (XO (XI (XO (XO XH))))
-| X13 -> Npos (XI (XI (XO (XO XH))))
-| X14 -> Npos (XO (XO (XI (XO XH))))
-| X15 -> Npos (XI (XO (XI (XO XH))))
-| X16 -> Npos (XO (XI (XI (XO XH))))
-| X17 -> Npos (XI (XI (XI (XO XH))))
-| X18 -> Npos (XO (XO (XO (XI XH))))
-| X19 -> Npos (XI (XO (XO (XI XH))))
-| X1a -> Npos (XO (XI (XO (XI XH))))
-| X1b -> Npos (XI (XI (XO (XI XH))))
-| X1c -> Npos (XO (XO (XI (XI XH))))
-| X1d -> Npos (XI (XO (XI (XI XH))))
-| X1e -> Npos (XO (XI (XI (XI XH))))
-| X1f -> Npos (XI (XI (XI (XI XH))))
-| X20 -> Npos (XO (XO (XO (XO (XO XH)))))
-| X21 -> Npos (XI (XO (XO (XO (XO XH)))))
-| X22 -> Npos (XO (XI (XO (XO (XO XH)))))
-| X23 -> Npos (XI (XI (XO (XO (XO XH)))))
-| X24 -> Npos (XO (XO (XI (XO (XO XH)))))
-| X25 -> Npos (XI (XO (XI (XO (XO XH)))))
-| X26 -> Npos (XO (XI (XI (XO (XO XH)))))
-| X27 -> Npos (XI (XI (XI (XO (XO XH)))))
-| X28 -> Npos (XO (XO (XO (XI (XO XH)))))
-| X29 -> Npos (XI (XO (XO (XI (XO XH)))))
-| X2a -> Npos (XO (XI (XO (XI (XO XH)))))
-| X2b -> Npos (XI (XI (XO (XI (XO XH)))))
-| X2c -> Npos (XO (XO (XI (XI (XO XH)))))
-| X2d -> Npos (XI (XO (XI (XI (XO XH)))))
-| X2e -> Npos (XO (XI (XI (XI (XO XH)))))
-| X2f -> Npos (XI (XI (XI (XI (XO XH)))))
-| X30 -> Npos (XO (XO (XO (XO (XI XH)))))
-| X31 -> Npos (XI (XO (XO (XO (XI XH)))))
-| X32 -> Npos (XO (XI (XO (XO (XI XH)))))
-| X33 -> Npos (XI (XI (XO (XO (XI XH)))))
-| X34 -> Npos (XO (XO (XI (XO (XI XH)))))
-| X35 -> Npos (XI (XO (XI (XO (XI XH)))))
-| X36 -> Npos (XO (XI (XI (XO (XI XH)))))
-| X37 -> Npos (XI (XI (XI (XO (XI XH)))))
-| X38 -> Npos (XO (XO (XO (XI (XI XH)))))
-| X39 -> Npos (XI (XO (XO (XI (XI XH)))))
-| X3a -> Npos (XO (XI (XO (XI (XI XH)))))
-| X3b -> Npos (XI (XI (XO (XI (XI XH)))))
-| X3c -> Npos (XO (XO (XI (XI (XI XH)))))
-| X3d -> Npos (XI (XO (XI (XI (XI XH)))))
-| X3e -> Npos (XO (XI (XI (XI (XI XH)))))
-| X3f -> Npos (XI (XI (XI (XI (XI XH)))))
-| X40 -> Npos (XO (XO (XO (XO (XO (XO XH))))))
-| X41 -> Npos (XI (XO (XO (XO (XO (XO XH))))))
-| X42 -> Npos (XO (XI (XO (XO (XO (XO XH))))))
-| X43 -> Npos (XI (XI (XO (XO (XO (XO XH))))))
-| X44 -> Npos (XO (XO (XI (XO (XO (XO XH))))))
-| X45 -> Npos (XI (XO (XI (XO (XO (XO XH))))))
-| X46 -> Npos (XO (XI (XI (XO (XO (XO XH))))))
-| X47 -> Npos (XI (XI (XI (XO (XO (XO XH))))))
-| X48 -> Npos (XO (XO (XO (XI (XO (XO XH))))))
-| X49 -> Npos (XI (XO (XO (XI (XO (XO XH))))))
-| X4a -> Npos (XO (XI (XO (XI (XO (XO XH))))))
-| X4b -> Npos (XI (XI (XO (XI (XO (XO XH))))))
-| X4c -> Npos (XO (XO (XI (XI (XO (XO XH))))))
-| X4d -> Npos (XI (XO (XI (XI (XO (XO XH))))))
-| X4e -> Npos (XO (XI (XI (XI (XO (XO XH))))))
-| X4f -> Npos (XI (XI (XI (XI (XO (XO XH))))))
-| X50 -> Npos (XO (XO (XO (XO (XI (XO XH))))))
-| X51 -> Npos (XI (XO (XO (XO (XI (XO XH))))))
-| X52 -> Npos (XO (XI (XO (XO (XI (XO XH))))))
-| X53 -> Npos (XI (XI (XO (XO (XI (XO XH))))))
-| X54 -> Npos (XO (XO (XI (XO (XI (XO XH))))))
-| X55 -> Npos (XI (XO (XI (XO (XI (XO XH))))))
-| X56 -> Npos (XO (XI (XI (XO (XI (XO XH))))))
-| X57 -> Npos (XI (XI (XI (XO (XI (XO XH))))))
-| X58 -> Npos (XO (XO (XO (XI (XI (XO XH))))))
-| X59 -> Npos (XI (XO (XO (XI (XI (XO XH))))))
-| X5a -> Npos (XO (XI (XO (XI (XI (XO XH))))))
-| X5b -> Npos (XI (XI (XO (XI (XI (XO XH))))))
-| X5c -> Npos (XO (XO (XI (XI (XI (XO XH))))))
-| X5d -> Npos (XI (XO (XI (XI (XI (XO XH))))))
-| X5e -> Npos (XO (XI (XI (XI (XI (XO XH))))))
-| X5f -> Npos (XI (XI (XI (XI (XI (XO XH))))))
-| X60 -> Npos (XO (XO (XO (XO (XO (XI XH))))))
-| X61 -> Npos (XI (XO (XO (XO (XO (XI XH))))))
-| X62 -> Npos (XO (XI (XO (XO (XO (XI XH))))))
-| X63 -> Npos (XI (XI (XO (XO (XO (XI XH))))))
-| X64 -> Npos (XO (XO (XI (XO (XO (XI XH))))))
-| X65 -> Npos (XI (XO (XI (XO (XO (XI XH))))))
-| X66 -> Npos (XO (XI (XI (XO (XO (XI XH))))))
-| X67 -> Npos (XI (XI (XI (XO (XO (XI XH))))))
-| X68 -> Npos (XO (XO (XO (XI (XO (XI XH))))))
-| X69 -> Npos (XI (XO (XO (XI (XO (XI XH))))))
-| X6a -> Npos (XO (XI (XO (XI (XO (XI XH))))))
-| X6b -> Npos (XI (XI (XO (XI (XO (XI XH))))))
-| X6c -> Npos (XO (XO (XI (XI (XO (XI XH))))))
-| X6d -> Npos (XI (XO (XI (XI (XO (XI XH))))))
-| X6e -> Npos (XO (XI (XI (XI (XO (XI XH))))))
-| X6f -> Npos (XI (XI (XI (XI (XO (XI XH))))))
-| X70 -> Npos (XO (XO (XO (XO (XI (XI XH))))))
-| X71 -> Npos (XI (XO (XO (XO (XI (XI XH))))))
-| X72 -> Npos (XO (XI (XO (XO (XI (XI XH))))))
-| X73 -> Npos (XI (XI (XO (XO (XI (XI XH))))))
-| X74 -> Npos (XO (XO (XI (XO (XI (XI XH))))))
-| X75 -> Npos (XI (XO (XI (XO (XI (XI XH))))))
-| X76 -> Npos (XO (XI (XI (XO (XI (XI XH))))))
-| X77 -> Npos (XI (XI (XI (XO (XI (XI XH))))))
-| X78 -> Npos (XO (XO (XO (XI (XI (XI XH))))))
-| X79 -> Npos (XI (XO (XO (XI (XI (XI XH))))))
-| X7a -> Npos (XO (XI (XO (XI (XI (XI XH))))))
-| X7b -> Npos (XI (XI (XO (XI (XI (XI XH))))))
-| X7c -> Npos (XO (XO (XI (XI (XI (XI XH))))))
-| X7d -> Npos (XI (XO (XI (XI (XI (XI XH))))))
-| X7e -> Npos (XO (XI (XI (XI (XI (XI XH))))))
-| X7f -> Npos (XI (XI (XI (XI (XI (XI XH))))))
-| X80 -> Npos (XO (XO (XO (XO (XO (XO (XO XH)))))))
-| X81 -> Npos (XI (XO (XO (XO (XO (XO (XO XH)))))))
-| X82 -> Npos (XO (XI (XO (XO (XO (XO (XO XH)))))))
-| X83 -> Npos (XI (XI (XO (XO (XO (XO (XO XH)))))))
-| X84 -> Npos (XO (XO (XI (XO (XO (XO (XO XH)))))))
-| X85 -> Npos (XI (XO (XI (XO (XO (XO (XO XH)))))))
-| X86 -> Npos (XO (XI (XI (XO (XO (XO (XO XH)))))))
-| X87 -> Npos (XI (XI (XI (XO (XO (XO (XO XH)))))))
-| X88 -> Npos (XO (XO (XO (XI (XO (XO (XO XH)))))))
-| X89 -> Npos (XI (XO (XO (XI (XO (XO (XO XH)))))))
-| X8a -> Npos (XO (XI (XO (XI (XO (XO (XO XH)))))))
-| X8b -> Npos (XI (XI (XO (XI (XO (XO (XO XH)))))))
-| X8c -> Npos (XO (XO (XI (XI (XO (XO (XO XH)))))))
-| X8d -> Npos (XI (XO (XI (XI (XO (XO (XO XH)))))))
-| X8e -> Npos (XO (XI (XI (XI (XO (XO (XO XH)))))))
-| X8f -> Npos (XI (XI (XI (XI (XO (XO (XO XH)))))))
-| X90 -> Npos (XO (XO (XO (XO (XI (XO (XO XH)))))))
-| X91 -> Npos (XI (XO (XO (XO (XI (XO (XO XH)))))))
-| X92 -> Npos (XO (XI (XO (XO (XI (XO (XO XH)))))))
-| X93 -> Npos (XI (XI (XO (XO (XI (XO (XO XH)))))))
-| X94 -> Npos (XO (XO (XI (XO (XI (XO (XO XH)))))))
-| X95 -> Npos (XI (XO (XI (XO (XI (XO (XO XH)))))))
-| X96 -> Npos (XO (XI (XI (XO (XI (XO (XO XH)))))))
-| X97 -> Npos (XI (XI (XI (XO (XI (XO (XO XH)))))))
-| X98 -> Npos (XO (XO (XO (XI (XI (XO (XO XH)))))))
-| X99 -> Npos (XI (XO (XO (XI (XI (XO (XO XH)))))))
-| X9a -> Npos (XO (XI (XO (XI (XI (XO (XO XH)))))))
-| X9b -> Npos (XI (XI (XO (XI (XI (XO (XO XH)))))))
-| X9c -> Npos (XO (XO (XI (XI (XI (XO (XO XH)))))))
-| X9d -> Npos (XI (XO (XI (XI (XI (XO (XO XH)))))))
-| X9e -> Npos (XO (XI (XI (XI (XI (XO (XO XH)))))))
-| X9f -> Npos (XI (XI (XI (XI (XI (XO (XO XH)))))))
-| Xa0 -> Npos (XO (XO (XO (XO (XO (XI (XO XH)))))))
-| Xa1 -> Npos (XI (XO (XO (XO (XO (XI (XO XH)))))))
-| Xa2 -> Npos (XO (XI (XO (XO (XO (XI (XO XH)))))))
-| Xa3 -> Npos (XI (XI (XO (XO (XO (XI (XO XH)))))))
-| Xa4 -> Npos (XO (XO (XI (XO (XO (XI (XO XH)))))))
-| Xa5 -> Npos (XI (XO (XI (XO (XO (XI (XO XH)))))))
-| Xa6 -> Npos (XO (XI (XI (XO (XO (XI (XO XH)))))))
-| Xa7 -> Npos (XI (XI (XI (XO (XO (XI (XO XH)))))))
-| Xa8 -> Npos (XO (XO (XO (XI (XO (XI (XO XH)))))))
-| Xa9 -> Npos (XI (XO (XO (XI (XO (XI (XO XH)))))))
-| Xaa -> Npos (XO (XI (XO (XI (XO (XI (XO XH)))))))
-| Xab -> Npos (XI (XI (XO (XI (XO (XI (XO XH)))))))
-| Xac -> Npos (XO (XO (XI (XI (XO (XI (XO XH)))))))
-| Xad -> Npos (XI (XO (XI (XI (XO (XI (XO XH)))))))
-| Xae -> Npos (XO (XI (XI (XI (XO (XI (XO XH)))))))
-| Xaf -> Npos (XI (XI (XI (XI (XO (XI (XO XH)))))))
-| Xb0 -> Npos (XO (XO (XO (XO (XI (XI (XO XH)))))))
-| Xb1 -> Npos (XI (XO (XO (XO (XI (XI (XO XH)))))))
-| Xb2 -> Npos (XO (XI (XO (XO (XI (XI (XO XH)))))))
-| Xb3 -> Npos (XI (XI (XO (XO (XI (XI (XO XH)))))))
-| Xb4 -> Npos (XO (XO (XI (XO (XI (XI (XO XH)))))))
-| Xb5 -> Npos (XI (XO (XI (XO (XI (XI (XO XH)))))))
-| Xb6 -> Npos (XO (XI (XI (XO (XI (XI (XO XH)))))))
-| Xb7 -> Npos (XI (XI (XI (XO (XI (XI (XO XH)))))))
-| Xb8 -> Npos (XO (XO (XO (XI (XI (XI (XO XH)))))))
-| Xb9 -> Npos (XI (XO (XO (XI (XI (XI (XO XH)))))))
-| Xba -> Npos (XO (XI (XO (XI (XI (XI (XO XH)))))))
-| Xbb -> Npos (XI (XI (XO (XI (XI (XI (XO XH)))))))
-| Xbc -> Npos (XO (XO (XI (XI (XI (XI (XO XH)))))))
-| Xbd -> Npos (XI (XO (XI (XI (XI (XI (XO XH)))))))
-| Xbe -> Npos (XO (XI (XI (XI (XI (XI (XO XH)))))))
-| Xbf -> Npos (XI (XI (XI (XI (XI (XI (XO XH)))))))
-| Xc0 -> Npos (XO (XO (XO (XO (XO (XO (XI XH)))))))
-| Xc1 -> Npos (XI (XO (XO (XO (XO (XO (XI XH)))))))
-| Xc2 -> Npos (XO (XI (XO (XO (XO (XO (XI XH)))))))
-| Xc3 -> Npos (XI (XI (XO (XO (XO (XO (XI XH)))))))
-| Xc4 -> Npos (XO (XO (XI (XO (XO (XO (XI XH)))))))
-| Xc5 -> Npos (XI (XO (XI (XO (XO (XO (XI XH)))))))
-| Xc6 -> Npos (XO (XI (XI (XO (XO (XO (XI XH)))))))
-| Xc7 -> Npos (XI (XI (XI (XO (XO (XO (XI XH)))))))
-| Xc8 -> Npos (XO (XO (XO (XI (XO (XO (XI XH)))))))
-| Xc9 -> Npos (XI (XO (XO (XI (XO (XO (XI XH)))))))
-| Xca -> Npos (XO (XI (XO (XI (XO (XO (XI XH)))))))
-| Xcb -> Npos (XI (XI (XO (XI (XO (XO (XI XH)))))))
-| Xcc -> Npos (XO (XO (XI (XI (XO (XO (XI XH)))))))
-| Xcd -> Npos (XI (XO (XI (XI (XO (XO (XI XH)))))))
-| Xce -> Npos (XO (XI (XI (XI (XO (XO (XI XH)))))))
-| Xcf -> Npos (XI (XI (XI (XI (XO (XO (XI XH)))))))
-| Xd0 -> Npos (XO (XO (XO (XO (XI (XO (XI XH)))))))
-| Xd1 -> Npos (XI (XO (XO (XO (XI (XO (XI XH)))))))
-| Xd2 -> Npos (XO (XI (XO (XO (XI (XO (XI XH)))))))
-| Xd3 -> Npos (XI (XI (XO (XO (XI (XO (XI XH)))))))
-| Xd4 -> Npos (XO (XO (XI (XO (XI (XO (XI XH)))))))
-| Xd5 -> Npos (XI (XO (XI (XO (XI (XO (XI XH)))))))
-| Xd6 -> Npos (XO (XI (XI (XO (XI (XO (XI XH)))))))
-| Xd7 -> Npos (XI (XI (XI (XO (XI (XO (XI XH)))))))
-| Xd8 -> Npos (XO (XO (XO (XI (XI (XO (XI XH)))))))
-| Xd9 -> Npos (XI (XO (XO (XI (XI (XO (XI XH)))))))
-| Xda -> Npos (XO (XI (XO (XI (XI (XO (XI XH)))))))
-| Xdb -> Npos (XI (XI (XO (XI (XI (XO (XI XH)))))))
-| Xdc -> Npos (XO (XO (XI (XI (XI (XO (XI XH)))))))
-| Xdd -> Npos (XI (XO (XI (XI (XI (XO (XI XH)))))))
-| Xde -> Npos (XO (XI (XI (XI (XI (XO (XI XH)))))))
-| Xdf -> Npos (XI (XI (XI (XI (XI (XO (XI XH)))))))
-| Xe0 -> Npos (XO (XO (XO (XO (XO (XI (XI XH)))))))
-| Xe1 -> Npos (XI (XO (XO (XO (XO (XI (XI XH)))))))
-| Xe2 -> Npos (XO (XI (XO (XO (XO (XI (XI XH)))))))
-| Xe3 -> Npos (XI (XI (XO (XO (XO (XI (XI XH)))))))
-| Xe4 -> Npos (XO (XO (XI (XO (XO (XI (XI XH)))))))
-| Xe5 -> Npos (XI (XO (XI (XO (XO (XI (XI XH)))))))
-| Xe6 -> Npos (XO (XI (XI (XO (XO (XI (XI XH)))))))
-| Xe7 -> Npos (XI (XI (XI (XO (XO (XI (XI XH)))))))
-| Xe8 -> Npos (XO (XO (XO (XI (XO (XI (XI XH)))))))
-| Xe9 -> Npos (XI (XO (XO (XI (XO (XI (XI XH)))))))
-| Xea -> Npos (XO (XI (XO (XI (XO (XI (XI XH)))))))
-| Xeb -> Npos (XI (XI (XO (XI (XO (XI (XI XH)))))))
-| Xec -> Npos (XO (XO (XI (XI (XO (XI (XI XH)))))))
-| Xed -> Npos (XI (XO (XI (XI (XO (XI (XI XH)))))))
-| Xee -> Npos (XO (XI (XI (XI (XO (XI (XI XH)))))))
-| Xef -> Npos (XI (XI (XI (XI (XO (XI (XI XH)))))))
-| Xf0 -> Npos (XO (XO (XO (XO (XI (XI (XI XH)))))))
-| Xf1 -> Npos (XI (XO (XO (XO (XI (XI (XI XH)))))))
-| Xf2 -> Npos (XO (XI (XO (XO (XI (XI (XI XH)))))))
-| Xf3 -> Npos (XI (XI (XO (XO (XI (XI (XI XH)))))))
-| Xf4 -> Npos (XO (XO (XI (XO (XI (XI (XI XH)))))))
-| Xf5 -> Npos (XI (XO (XI (XO (XI (XI (XI XH)))))))
-| Xf6 -> Npos (XO (XI (XI (XO (XI (XI (XI XH)))))))
-| Xf7 -> Npos (XI (XI (XI (XO (XI (XI (XI XH)))))))
-| Xf8 -> Npos (XO (XO (XO (XI (XI (XI (XI XH)))))))
-| Xf9 -> Npos (XI (XO (XO (XI (XI (XI (XI XH)))))))
-| Xfa -> Npos (XO (XI (XO (XI (XI (XI (XI XH)))))))
-| Xfb -> Npos (XI (XI (XO (XI (XI (XI (XI XH)))))))
-| Xfc -> Npos (XO (XO (XI (XI (XI (XI (XI XH)))))))
-| Xfd -> Npos (XI (XO (XI (XI (XI (XI (XI XH)))))))
-| Xfe -> Npos (XO (XI (XI (XI (XI (XI (XI XH)))))))
-| Xff -> Npos (XI (XI (XI (XI (XI (XI (XI XH)))))))
-
-type ascii =
-| Ascii of bool * bool * bool * bool * bool * bool * bool * bool
-
-(** val byte_of_ascii : ascii -> byte **)
-
-let byte_of_ascii = function
-| Ascii (b0, b1, b2, b3, b4, b5, b6, b7) ->
-  of_bits (b0, (b1, (b2, (b3, (b4, (b5, (b6, b7)))))))
-
 module Z =
  struct
   (** val eqb : z -> z -> bool **)
@@ -1524,27 +609,7 @@ module Z =
   | Npos p -> Zpos p
  end
 
-type string =
-| EmptyString
-| String of ascii * string
-
-(** val list_ascii_of_string : string -> ascii list **)
-
-let rec list_ascii_of_string = function
-| EmptyString -> []
-| String (ch, s0) -> ch :: (list_ascii_of_string s0)
-
-(** val list_byte_of_string : string -> byte list **)
-
-let list_byte_of_string s =
-  map byte_of_ascii (list_ascii_of_string s)
-
 type bytes = n list
-
-(** val bs : string -> bytes **)
-
-let bs s =
-  map to_N (list_byte_of_string s)
 
 (** val beqb : bytes -> bytes -> bool **)
 
@@ -2386,6 +1451,151 @@ let is_nil = function
 | [] -> true
 | _ :: _ -> false
 
+(** val s_SNAPSHOT : text **)
+
+let s_SNAPSHOT =
+  (Npos (XI (XI (XO (XO (XI (XO XH))))))) :: ((Npos (XO (XI (XI (XI (XO (XO
+    XH))))))) :: ((Npos (XI (XO (XO (XO (XO (XO XH))))))) :: ((Npos (XO (XO
+    (XO (XO (XI (XO XH))))))) :: ((Npos (XI (XI (XO (XO (XI (XO
+    XH))))))) :: ((Npos (XO (XO (XO (XI (XO (XO XH))))))) :: ((Npos (XI (XI
+    (XI (XI (XO (XO XH))))))) :: ((Npos (XO (XO (XI (XO (XI (XO
+    XH))))))) :: [])))))))
+
+(** val s_DIRECTORY : text **)
+
+let s_DIRECTORY =
+  (Npos (XO (XO (XI (XO (XO (XO XH))))))) :: ((Npos (XI (XO (XO (XI (XO (XO
+    XH))))))) :: ((Npos (XO (XI (XO (XO (XI (XO XH))))))) :: ((Npos (XI (XO
+    (XI (XO (XO (XO XH))))))) :: ((Npos (XI (XI (XO (XO (XO (XO
+    XH))))))) :: ((Npos (XO (XO (XI (XO (XI (XO XH))))))) :: ((Npos (XI (XI
+    (XI (XI (XO (XO XH))))))) :: ((Npos (XO (XI (XO (XO (XI (XO
+    XH))))))) :: ((Npos (XI (XO (XO (XI (XI (XO XH))))))) :: []))))))))
+
+(** val s_REVISION : text **)
+
+let s_REVISION =
+  (Npos (XO (XI (XO (XO (XI (XO XH))))))) :: ((Npos (XI (XO (XI (XO (XO (XO
+    XH))))))) :: ((Npos (XO (XI (XI (XO (XI (XO XH))))))) :: ((Npos (XI (XO
+    (XO (XI (XO (XO XH))))))) :: ((Npos (XI (XI (XO (XO (XI (XO
+    XH))))))) :: ((Npos (XI (XO (XO (XI (XO (XO XH))))))) :: ((Npos (XI (XI
+    (XI (XI (XO (XO XH))))))) :: ((Npos (XO (XI (XI (XI (XO (XO
+    XH))))))) :: [])))))))
+
+(** val s_RELEASE : text **)
+
+let s_RELEASE =
+  (Npos (XO (XI (XO (XO (XI (XO XH))))))) :: ((Npos (XI (XO (XI (XO (XO (XO
+    XH))))))) :: ((Npos (XO (XO (XI (XI (XO (XO XH))))))) :: ((Npos (XI (XO
+    (XI (XO (XO (XO XH))))))) :: ((Npos (XI (XO (XO (XO (XO (XO
+    XH))))))) :: ((Npos (XI (XI (XO (XO (XI (XO XH))))))) :: ((Npos (XI (XO
+    (XI (XO (XO (XO XH))))))) :: []))))))
+
+(** val s_pct3B : text **)
+
+let s_pct3B =
+  (Npos (XI (XO (XI (XO (XO XH)))))) :: ((Npos (XI (XI (XO (XO (XI
+    XH)))))) :: ((Npos (XO (XI (XO (XO (XO (XO XH))))))) :: []))
+
+(** val s_pct25 : text **)
+
+let s_pct25 =
+  (Npos (XI (XO (XI (XO (XO XH)))))) :: ((Npos (XO (XI (XO (XO (XI
+    XH)))))) :: ((Npos (XI (XO (XI (XO (XI XH)))))) :: []))
+
+(** val s_swh1 : text **)
+
+let s_swh1 =
+  (Npos (XI (XI (XO (XO (XI (XI XH))))))) :: ((Npos (XI (XI (XI (XO (XI (XI
+    XH))))))) :: ((Npos (XO (XO (XO (XI (XO (XI XH))))))) :: ((Npos (XO (XI
+    (XO (XI (XI XH)))))) :: ((Npos (XI (XO (XO (XO (XI XH)))))) :: ((Npos (XO
+    (XI (XO (XI (XI XH)))))) :: [])))))
+
+(** val s_colon : text **)
+
+let s_colon =
+  (Npos (XO (XI (XO (XI (XI XH)))))) :: []
+
+(** val s_visit : text **)
+
+let s_visit =
+  (Npos (XO (XI (XI (XO (XI (XI XH))))))) :: ((Npos (XI (XO (XO (XI (XO (XI
+    XH))))))) :: ((Npos (XI (XI (XO (XO (XI (XI XH))))))) :: ((Npos (XI (XO
+    (XO (XI (XO (XI XH))))))) :: ((Npos (XO (XO (XI (XO (XI (XI
+    XH))))))) :: []))))
+
+(** val s_anchor : text **)
+
+let s_anchor =
+  (Npos (XI (XO (XO (XO (XO (XI XH))))))) :: ((Npos (XO (XI (XI (XI (XO (XI
+    XH))))))) :: ((Npos (XI (XI (XO (XO (XO (XI XH))))))) :: ((Npos (XO (XO
+    (XO (XI (XO (XI XH))))))) :: ((Npos (XI (XI (XI (XI (XO (XI
+    XH))))))) :: ((Npos (XO (XI (XO (XO (XI (XI XH))))))) :: [])))))
+
+(** val s_lines : text **)
+
+let s_lines =
+  (Npos (XO (XO (XI (XI (XO (XI XH))))))) :: ((Npos (XI (XO (XO (XI (XO (XI
+    XH))))))) :: ((Npos (XO (XI (XI (XI (XO (XI XH))))))) :: ((Npos (XI (XO
+    (XI (XO (XO (XI XH))))))) :: ((Npos (XI (XI (XO (XO (XI (XI
+    XH))))))) :: []))))
+
+(** val s_path : text **)
+
+let s_path =
+  (Npos (XO (XO (XO (XO (XI (XI XH))))))) :: ((Npos (XI (XO (XO (XO (XO (XI
+    XH))))))) :: ((Npos (XO (XO (XI (XO (XI (XI XH))))))) :: ((Npos (XO (XO
+    (XO (XI (XO (XI XH))))))) :: [])))
+
+(** val s_snp : text **)
+
+let s_snp =
+  (Npos (XI (XI (XO (XO (XI (XI XH))))))) :: ((Npos (XO (XI (XI (XI (XO (XI
+    XH))))))) :: ((Npos (XO (XO (XO (XO (XI (XI XH))))))) :: []))
+
+(** val s_rel : text **)
+
+let s_rel =
+  (Npos (XO (XI (XO (XO (XI (XI XH))))))) :: ((Npos (XI (XO (XI (XO (XO (XI
+    XH))))))) :: ((Npos (XO (XO (XI (XI (XO (XI XH))))))) :: []))
+
+(** val s_rev : text **)
+
+let s_rev =
+  (Npos (XO (XI (XO (XO (XI (XI XH))))))) :: ((Npos (XI (XO (XI (XO (XO (XI
+    XH))))))) :: ((Npos (XO (XI (XI (XO (XI (XI XH))))))) :: []))
+
+(** val s_dir : text **)
+
+let s_dir =
+  (Npos (XO (XO (XI (XO (XO (XI XH))))))) :: ((Npos (XI (XO (XO (XI (XO (XI
+    XH))))))) :: ((Npos (XO (XI (XO (XO (XI (XI XH))))))) :: []))
+
+(** val s_cnt : text **)
+
+let s_cnt =
+  (Npos (XI (XI (XO (XO (XO (XI XH))))))) :: ((Npos (XO (XI (XI (XI (XO (XI
+    XH))))))) :: ((Npos (XO (XO (XI (XO (XI (XI XH))))))) :: []))
+
+(** val s_ori : text **)
+
+let s_ori =
+  (Npos (XI (XI (XI (XI (XO (XI XH))))))) :: ((Npos (XO (XI (XO (XO (XI (XI
+    XH))))))) :: ((Npos (XI (XO (XO (XI (XO (XI XH))))))) :: []))
+
+(** val s_emd : text **)
+
+let s_emd =
+  (Npos (XI (XO (XI (XO (XO (XI XH))))))) :: ((Npos (XI (XO (XI (XI (XO (XI
+    XH))))))) :: ((Npos (XO (XO (XI (XO (XO (XI XH))))))) :: []))
+
+(** val s_origin : text **)
+
+let s_origin =
+  (Npos (XI (XI (XI (XI (XO (XI XH))))))) :: ((Npos (XO (XI (XO (XO (XI (XI
+    XH))))))) :: ((Npos (XI (XO (XO (XI (XO (XI XH))))))) :: ((Npos (XI (XI
+    (XI (XO (XO (XI XH))))))) :: ((Npos (XI (XO (XO (XI (XO (XI
+    XH))))))) :: ((Npos (XO (XI (XI (XI (XO (XI XH))))))) :: [])))))
+
 (** val wS_TABLE : n list **)
 
 let wS_TABLE =
@@ -2506,58 +1716,22 @@ let enum_member name =
 (** val tY_SNAPSHOT : text **)
 
 let tY_SNAPSHOT =
-  enum_member
-    (bs (String ((Ascii (true, true, false, false, true, false, true,
-      false)), (String ((Ascii (false, true, true, true, false, false, true,
-      false)), (String ((Ascii (true, false, false, false, false, false,
-      true, false)), (String ((Ascii (false, false, false, false, true,
-      false, true, false)), (String ((Ascii (true, true, false, false, true,
-      false, true, false)), (String ((Ascii (false, false, false, true,
-      false, false, true, false)), (String ((Ascii (true, true, true, true,
-      false, false, true, false)), (String ((Ascii (false, false, true,
-      false, true, false, true, false)), EmptyString)))))))))))))))))
+  enum_member s_SNAPSHOT
 
 (** val tY_DIRECTORY : text **)
 
 let tY_DIRECTORY =
-  enum_member
-    (bs (String ((Ascii (false, false, true, false, false, false, true,
-      false)), (String ((Ascii (true, false, false, true, false, false, true,
-      false)), (String ((Ascii (false, true, false, false, true, false, true,
-      false)), (String ((Ascii (true, false, true, false, false, false, true,
-      false)), (String ((Ascii (true, true, false, false, false, false, true,
-      false)), (String ((Ascii (false, false, true, false, true, false, true,
-      false)), (String ((Ascii (true, true, true, true, false, false, true,
-      false)), (String ((Ascii (false, true, false, false, true, false, true,
-      false)), (String ((Ascii (true, false, false, true, true, false, true,
-      false)), EmptyString)))))))))))))))))))
+  enum_member s_DIRECTORY
 
 (** val tY_REVISION : text **)
 
 let tY_REVISION =
-  enum_member
-    (bs (String ((Ascii (false, true, false, false, true, false, true,
-      false)), (String ((Ascii (true, false, true, false, false, false, true,
-      false)), (String ((Ascii (false, true, true, false, true, false, true,
-      false)), (String ((Ascii (true, false, false, true, false, false, true,
-      false)), (String ((Ascii (true, true, false, false, true, false, true,
-      false)), (String ((Ascii (true, false, false, true, false, false, true,
-      false)), (String ((Ascii (true, true, true, true, false, false, true,
-      false)), (String ((Ascii (false, true, true, true, false, false, true,
-      false)), EmptyString)))))))))))))))))
+  enum_member s_REVISION
 
 (** val tY_RELEASE : text **)
 
 let tY_RELEASE =
-  enum_member
-    (bs (String ((Ascii (false, true, false, false, true, false, true,
-      false)), (String ((Ascii (true, false, true, false, false, false, true,
-      false)), (String ((Ascii (false, false, true, true, false, false, true,
-      false)), (String ((Ascii (true, false, true, false, false, false, true,
-      false)), (String ((Ascii (true, false, false, false, false, false,
-      true, false)), (String ((Ascii (true, true, false, false, true, false,
-      true, false)), (String ((Ascii (true, false, true, false, false, false,
-      true, false)), EmptyString)))))))))))))))
+  enum_member s_RELEASE
 
 (** val aNCHOR_TYPES : text list **)
 
@@ -2598,56 +1772,44 @@ let mk_q ty oid origin visit anchor path lines =
                         q_visit = visit; q_anchor = anchor; q_path = path;
                         q_lines = lines }
 
-(** val k_origin : bytes **)
+(** val k_origin : text **)
 
 let k_origin =
-  bs (String ((Ascii (true, true, true, true, false, true, true, false)),
-    (String ((Ascii (false, true, false, false, true, true, true, false)),
-    (String ((Ascii (true, false, false, true, false, true, true, false)),
-    (String ((Ascii (true, true, true, false, false, true, true, false)),
-    (String ((Ascii (true, false, false, true, false, true, true, false)),
-    (String ((Ascii (false, true, true, true, false, true, true, false)),
-    EmptyString))))))))))))
+  (Npos (XI (XI (XI (XI (XO (XI XH))))))) :: ((Npos (XO (XI (XO (XO (XI (XI
+    XH))))))) :: ((Npos (XI (XO (XO (XI (XO (XI XH))))))) :: ((Npos (XI (XI
+    (XI (XO (XO (XI XH))))))) :: ((Npos (XI (XO (XO (XI (XO (XI
+    XH))))))) :: ((Npos (XO (XI (XI (XI (XO (XI XH))))))) :: [])))))
 
-(** val k_visit : bytes **)
+(** val k_visit : text **)
 
 let k_visit =
-  bs (String ((Ascii (false, true, true, false, true, true, true, false)),
-    (String ((Ascii (true, false, false, true, false, true, true, false)),
-    (String ((Ascii (true, true, false, false, true, true, true, false)),
-    (String ((Ascii (true, false, false, true, false, true, true, false)),
-    (String ((Ascii (false, false, true, false, true, true, true, false)),
-    EmptyString))))))))))
+  (Npos (XO (XI (XI (XO (XI (XI XH))))))) :: ((Npos (XI (XO (XO (XI (XO (XI
+    XH))))))) :: ((Npos (XI (XI (XO (XO (XI (XI XH))))))) :: ((Npos (XI (XO
+    (XO (XI (XO (XI XH))))))) :: ((Npos (XO (XO (XI (XO (XI (XI
+    XH))))))) :: []))))
 
-(** val k_anchor : bytes **)
+(** val k_anchor : text **)
 
 let k_anchor =
-  bs (String ((Ascii (true, false, false, false, false, true, true, false)),
-    (String ((Ascii (false, true, true, true, false, true, true, false)),
-    (String ((Ascii (true, true, false, false, false, true, true, false)),
-    (String ((Ascii (false, false, false, true, false, true, true, false)),
-    (String ((Ascii (true, true, true, true, false, true, true, false)),
-    (String ((Ascii (false, true, false, false, true, true, true, false)),
-    EmptyString))))))))))))
+  (Npos (XI (XO (XO (XO (XO (XI XH))))))) :: ((Npos (XO (XI (XI (XI (XO (XI
+    XH))))))) :: ((Npos (XI (XI (XO (XO (XO (XI XH))))))) :: ((Npos (XO (XO
+    (XO (XI (XO (XI XH))))))) :: ((Npos (XI (XI (XI (XI (XO (XI
+    XH))))))) :: ((Npos (XO (XI (XO (XO (XI (XI XH))))))) :: [])))))
 
-(** val k_path : bytes **)
+(** val k_path : text **)
 
 let k_path =
-  bs (String ((Ascii (false, false, false, false, true, true, true, false)),
-    (String ((Ascii (true, false, false, false, false, true, true, false)),
-    (String ((Ascii (false, false, true, false, true, true, true, false)),
-    (String ((Ascii (false, false, false, true, false, true, true, false)),
-    EmptyString))))))))
+  (Npos (XO (XO (XO (XO (XI (XI XH))))))) :: ((Npos (XI (XO (XO (XO (XO (XI
+    XH))))))) :: ((Npos (XO (XO (XI (XO (XI (XI XH))))))) :: ((Npos (XO (XO
+    (XO (XI (XO (XI XH))))))) :: [])))
 
-(** val k_lines : bytes **)
+(** val k_lines : text **)
 
 let k_lines =
-  bs (String ((Ascii (false, false, true, true, false, true, true, false)),
-    (String ((Ascii (true, false, false, true, false, true, true, false)),
-    (String ((Ascii (false, true, true, true, false, true, true, false)),
-    (String ((Ascii (true, false, true, false, false, true, true, false)),
-    (String ((Ascii (true, true, false, false, true, true, true, false)),
-    EmptyString))))))))))
+  (Npos (XO (XO (XI (XI (XO (XI XH))))))) :: ((Npos (XI (XO (XO (XI (XO (XI
+    XH))))))) :: ((Npos (XO (XI (XI (XI (XO (XI XH))))))) :: ((Npos (XI (XO
+    (XI (XO (XO (XI XH))))))) :: ((Npos (XI (XI (XO (XO (XI (XI
+    XH))))))) :: []))))
 
 (** val fIELD_KEYS : text list **)
 
@@ -2680,16 +1842,8 @@ let rec quote_spaces = function
 
 let esc_origin o =
   quote_spaces
-    (replace_char (Npos (XI (XI (XO (XI (XI XH))))))
-      (bs (String ((Ascii (true, false, true, false, false, true, false,
-        false)), (String ((Ascii (true, true, false, false, true, true,
-        false, false)), (String ((Ascii (false, true, false, false, false,
-        false, true, false)), EmptyString)))))))
-      (replace_char (Npos (XI (XO (XI (XO (XO XH))))))
-        (bs (String ((Ascii (true, false, true, false, false, true, false,
-          false)), (String ((Ascii (false, true, false, false, true, true,
-          false, false)), (String ((Ascii (true, false, true, false, true,
-          true, false, false)), EmptyString))))))) o))
+    (replace_char (Npos (XI (XI (XO (XI (XI XH)))))) s_pct3B
+      (replace_char (Npos (XI (XO (XI (XO (XO XH)))))) s_pct25 o))
 
 (** val print_origin : (text -> text option) -> text -> text result **)
 
@@ -2938,164 +2092,27 @@ let parse_q =
 (** val dOC_CORE_TYPES : text list **)
 
 let dOC_CORE_TYPES =
-  (bs (String ((Ascii (true, true, false, false, true, true, true, false)),
-    (String ((Ascii (false, true, true, true, false, true, true, false)),
-    (String ((Ascii (false, false, false, false, true, true, true, false)),
-    EmptyString))))))) :: ((bs (String ((Ascii (false, true, false, false,
-                             true, true, true, false)), (String ((Ascii
-                             (true, false, true, false, false, true, true,
-                             false)), (String ((Ascii (false, false, true,
-                             true, false, true, true, false)),
-                             EmptyString))))))) :: ((bs (String ((Ascii
-                                                      (false, true, false,
-                                                      false, true, true,
-                                                      true, false)), (String
-                                                      ((Ascii (true, false,
-                                                      true, false, false,
-                                                      true, true, false)),
-                                                      (String ((Ascii (false,
-                                                      true, true, false,
-                                                      true, true, true,
-                                                      false)),
-                                                      EmptyString))))))) :: (
-    (bs (String ((Ascii (false, false, true, false, false, true, true,
-      false)), (String ((Ascii (true, false, false, true, false, true, true,
-      false)), (String ((Ascii (false, true, false, false, true, true, true,
-      false)), EmptyString))))))) :: ((bs (String ((Ascii (true, true, false,
-                                        false, false, true, true, false)),
-                                        (String ((Ascii (false, true, true,
-                                        true, false, true, true, false)),
-                                        (String ((Ascii (false, false, true,
-                                        false, true, true, true, false)),
-                                        EmptyString))))))) :: []))))
+  s_snp :: (s_rel :: (s_rev :: (s_dir :: (s_cnt :: []))))
 
 (** val dOC_EXT_TYPES : text list **)
 
 let dOC_EXT_TYPES =
-  app dOC_CORE_TYPES
-    ((bs (String ((Ascii (true, true, true, true, false, true, true, false)),
-       (String ((Ascii (false, true, false, false, true, true, true, false)),
-       (String ((Ascii (true, false, false, true, false, true, true, false)),
-       EmptyString))))))) :: ((bs (String ((Ascii (true, false, true, false,
-                                false, true, true, false)), (String ((Ascii
-                                (true, false, true, true, false, true, true,
-                                false)), (String ((Ascii (false, false, true,
-                                false, false, true, true, false)),
-                                EmptyString))))))) :: []))
+  app dOC_CORE_TYPES (s_ori :: (s_emd :: []))
 
 (** val dOC_VISIT_TYPES : text list **)
 
 let dOC_VISIT_TYPES =
-  (bs (String ((Ascii (true, true, false, false, true, true, true, false)),
-    (String ((Ascii (false, true, true, true, false, true, true, false)),
-    (String ((Ascii (false, false, false, false, true, true, true, false)),
-    EmptyString))))))) :: []
+  s_snp :: []
 
 (** val dOC_ANCHOR_TYPES : text list **)
 
 let dOC_ANCHOR_TYPES =
-  (bs (String ((Ascii (false, false, true, false, false, true, true, false)),
-    (String ((Ascii (true, false, false, true, false, true, true, false)),
-    (String ((Ascii (false, true, false, false, true, true, true, false)),
-    EmptyString))))))) :: ((bs (String ((Ascii (false, true, false, false,
-                             true, true, true, false)), (String ((Ascii
-                             (true, false, true, false, false, true, true,
-                             false)), (String ((Ascii (false, true, true,
-                             false, true, true, true, false)),
-                             EmptyString))))))) :: ((bs (String ((Ascii
-                                                      (false, true, false,
-                                                      false, true, true,
-                                                      true, false)), (String
-                                                      ((Ascii (true, false,
-                                                      true, false, false,
-                                                      true, true, false)),
-                                                      (String ((Ascii (false,
-                                                      false, true, true,
-                                                      false, true, true,
-                                                      false)),
-                                                      EmptyString))))))) :: (
-    (bs (String ((Ascii (true, true, false, false, true, true, true, false)),
-      (String ((Ascii (false, true, true, true, false, true, true, false)),
-      (String ((Ascii (false, false, false, false, true, true, true, false)),
-      EmptyString))))))) :: [])))
+  s_dir :: (s_rev :: (s_rel :: (s_snp :: [])))
 
 (** val dOC_KEYS : text list **)
 
 let dOC_KEYS =
-  (bs (String ((Ascii (true, true, true, true, false, true, true, false)),
-    (String ((Ascii (false, true, false, false, true, true, true, false)),
-    (String ((Ascii (true, false, false, true, false, true, true, false)),
-    (String ((Ascii (true, true, true, false, false, true, true, false)),
-    (String ((Ascii (true, false, false, true, false, true, true, false)),
-    (String ((Ascii (false, true, true, true, false, true, true, false)),
-    EmptyString))))))))))))) :: ((bs (String ((Ascii (false, true, true,
-                                   false, true, true, true, false)), (String
-                                   ((Ascii (true, false, false, true, false,
-                                   true, true, false)), (String ((Ascii
-                                   (true, true, false, false, true, true,
-                                   true, false)), (String ((Ascii (true,
-                                   false, false, true, false, true, true,
-                                   false)), (String ((Ascii (false, false,
-                                   true, false, true, true, true, false)),
-                                   EmptyString))))))))))) :: ((bs (String
-                                                                ((Ascii
-                                                                (true, false,
-                                                                false, false,
-                                                                false, true,
-                                                                true,
-                                                                false)),
-                                                                (String
-                                                                ((Ascii
-                                                                (false, true,
-                                                                true, true,
-                                                                false, true,
-                                                                true,
-                                                                false)),
-                                                                (String
-                                                                ((Ascii
-                                                                (true, true,
-                                                                false, false,
-                                                                false, true,
-                                                                true,
-                                                                false)),
-                                                                (String
-                                                                ((Ascii
-                                                                (false,
-                                                                false, false,
-                                                                true, false,
-                                                                true, true,
-                                                                false)),
-                                                                (String
-                                                                ((Ascii
-                                                                (true, true,
-                                                                true, true,
-                                                                false, true,
-                                                                true,
-                                                                false)),
-                                                                (String
-                                                                ((Ascii
-                                                                (false, true,
-                                                                false, false,
-                                                                true, true,
-                                                                true,
-                                                                false)),
-                                                                EmptyString))))))))))))) :: (
-    (bs (String ((Ascii (false, false, false, false, true, true, true,
-      false)), (String ((Ascii (true, false, false, false, false, true, true,
-      false)), (String ((Ascii (false, false, true, false, true, true, true,
-      false)), (String ((Ascii (false, false, false, true, false, true, true,
-      false)), EmptyString))))))))) :: ((bs (String ((Ascii (false, false,
-                                          true, true, false, true, true,
-                                          false)), (String ((Ascii (true,
-                                          false, false, true, false, true,
-                                          true, false)), (String ((Ascii
-                                          (false, true, true, true, false,
-                                          true, true, false)), (String
-                                          ((Ascii (true, false, true, false,
-                                          false, true, true, false)), (String
-                                          ((Ascii (true, true, false, false,
-                                          true, true, true, false)),
-                                          EmptyString))))))))))) :: []))))
+  s_origin :: (s_visit :: (s_anchor :: (s_path :: (s_lines :: []))))
 
 (** val lang_head : text list -> text -> text option **)
 
@@ -3103,23 +2120,13 @@ let lang_head types s =
   if (&&)
        ((&&)
          ((&&)
-           ((&&)
-             (beqb (firstn (S (S (S (S (S (S O)))))) s)
-               (bs (String ((Ascii (true, true, false, false, true, true,
-                 true, false)), (String ((Ascii (true, true, true, false,
-                 true, true, true, false)), (String ((Ascii (false, false,
-                 false, true, false, true, true, false)), (String ((Ascii
-                 (false, true, false, true, true, true, false, false)),
-                 (String ((Ascii (true, false, false, false, true, true,
-                 false, false)), (String ((Ascii (false, true, false, true,
-                 true, true, false, false)), EmptyString))))))))))))))
+           ((&&) (beqb (firstn (S (S (S (S (S (S O)))))) s) s_swh1)
              (mem_bytes
                (firstn (S (S (S O))) (skipn (S (S (S (S (S (S O)))))) s))
                types))
            (beqb
              (firstn (S O) (skipn (S (S (S (S (S (S (S (S (S O))))))))) s))
-             (bs (String ((Ascii (false, true, false, true, true, true,
-               false, false)), EmptyString)))))
+             s_colon))
          (Nat.eqb
            (length
              (firstn (S (S (S (S (S (S (S (S (S (S (S (S (S (S (S (S (S (S (S
@@ -3219,44 +2226,10 @@ let lang_q s =
                     match item_kv it with
                     | Some p -> let (k, _) = p in mem_bytes k dOC_KEYS
                     | None -> false) items)
-                  (opt_ok (lang_id dOC_VISIT_TYPES)
-                    (effective
-                      (bs (String ((Ascii (false, true, true, false, true,
-                        true, true, false)), (String ((Ascii (true, false,
-                        false, true, false, true, true, false)), (String
-                        ((Ascii (true, true, false, false, true, true, true,
-                        false)), (String ((Ascii (true, false, false, true,
-                        false, true, true, false)), (String ((Ascii (false,
-                        false, true, false, true, true, true, false)),
-                        EmptyString))))))))))) items)))
-                (opt_ok (lang_id dOC_ANCHOR_TYPES)
-                  (effective
-                    (bs (String ((Ascii (true, false, false, false, false,
-                      true, true, false)), (String ((Ascii (false, true,
-                      true, true, false, true, true, false)), (String ((Ascii
-                      (true, true, false, false, false, true, true, false)),
-                      (String ((Ascii (false, false, false, true, false,
-                      true, true, false)), (String ((Ascii (true, true, true,
-                      true, false, true, true, false)), (String ((Ascii
-                      (false, true, false, false, true, true, true, false)),
-                      EmptyString))))))))))))) items)))
-              (opt_ok lang_lines
-                (effective
-                  (bs (String ((Ascii (false, false, true, true, false, true,
-                    true, false)), (String ((Ascii (true, false, false, true,
-                    false, true, true, false)), (String ((Ascii (false, true,
-                    true, true, false, true, true, false)), (String ((Ascii
-                    (true, false, true, false, false, true, true, false)),
-                    (String ((Ascii (true, true, false, false, true, true,
-                    true, false)), EmptyString))))))))))) items)))
-            (opt_ok (forallb is_scalar)
-              (effective
-                (bs (String ((Ascii (false, false, false, false, true, true,
-                  true, false)), (String ((Ascii (true, false, false, false,
-                  false, true, true, false)), (String ((Ascii (false, false,
-                  true, false, true, true, true, false)), (String ((Ascii
-                  (false, false, false, true, false, true, true, false)),
-                  EmptyString))))))))) items))))
+                  (opt_ok (lang_id dOC_VISIT_TYPES) (effective s_visit items)))
+                (opt_ok (lang_id dOC_ANCHOR_TYPES) (effective s_anchor items)))
+              (opt_ok lang_lines (effective s_lines items)))
+            (opt_ok (forallb is_scalar) (effective s_path items))))
   | None -> false
 
 (** val max_digit_run : nat -> nat -> text -> nat **)
